@@ -160,7 +160,14 @@ class SSHForwarder(asyncio.BaseProtocol):
         if self._peer:
             self._peer.write_eof()
 
-            return not self._peer.was_eof_received()
+            if self._peer.was_eof_received():
+                # EOF has now been seen in both directions. A channel
+                # which already sent EOF doesn't close on its own when
+                # we return False here, so close both sides explicitly.
+                self.close()
+                return False
+            else:
+                return True
         else:
             return True
 
